@@ -13,9 +13,16 @@ from props import c08_blocks
 PRELUDE_SPEC = 'From V Require Import Base.Bits Spec.C08.\n'
 PRELUDE_BOTH = 'From V Require Import Base.Bits Spec.C08 Gen.WireOps Gen.Prims Model.StructLogic.\n'
 CHK = '''
-(* all input vectors over the given widths, in the order of itertools.product (first input varies slowest) *)
-Fixpoint enum (ws : list Z) : list (list Z) :=
-  match ws with [] => [[]] | w :: t => flat_map (fun v => map (cons v) (enum t)) (seqZ 0 (2 ^ w)) end.
+(* a whole truth table travels as ONE hexadecimal numeral: case k occupies bits [k*W, (k+1)*W), inside a case the input
+   fields come first (least significant), then the output fields, each as wide as its wire (nested list literals of
+   thousands of cases take seconds to parse; a numeral does not) *)
+Fixpoint split_fields (ws : list Z) (p : Z) : list Z :=
+  match ws with [] => [] | w :: t => Z.land p (Z.ones w) :: split_fields t (Z.shiftr p w) end.
+Fixpoint unpack (n : nat) (iw ow : list Z) (W p : Z) : list (list Z * list Z) :=
+  match n with
+  | O => []
+  | S n' => let f := split_fields (iw ++ ow) p in (firstn (length iw) f, skipn (length iw) f) :: unpack n' iw ow W (Z.shiftr p W)
+  end.
 Fixpoint eqlZ (a b : list Z) : bool :=
   match a, b with [], [] => true | x :: a', y :: b' => (x =? y) && eqlZ a' b' | _, _ => false end.
 (* (index, spec output, model output) of the first cases whose implementation output differs from the spec / the model *)
@@ -69,6 +76,7 @@ def run_impl(py4hw, blk, cfg, ins_list):
         with quiet():
             sim.propagateAll()
         outs.append([w.get() for w in ow])
+    run_impl.out_widths = [w.getWidth() for w in ow]
     return outs
 
 
@@ -76,11 +84,15 @@ def coq_compare(tag, groups, with_model):
     """groups: list of (blk, cfg, ins_list, outs).  One coqc call.  returns per group a list of (index, spec_out, model_out)."""
     body = [PRELUDE_BOTH if with_model else PRELUDE_SPEC, CHK]
     items = []
-    for g, (blk, cfg, ins_list, outs, full) in enumerate(groups):
-        if full:      # full truth table: Coq enumerates the inputs itself, only the implementation outputs are written out
-            cases = '(combine (enum %s) [%s])' % (zlist(blk.in_widths(cfg)), '; '.join(zlist(o) for o in outs))
-        else:
-            cases = '[' + '; '.join('(%s, %s)' % (zlist(i), zlist(o)) for i, o in zip(ins_list, outs)) + ']'
+    for g, (blk, cfg, ins_list, outs, ow) in enumerate(groups):
+        iw = blk.in_widths(cfg)
+        W, P = sum(iw) + sum(ow), 0
+        for k, (i, o) in enumerate(zip(ins_list, outs)):
+            off = k * W
+            for w, v in zip(iw + ow, i + o):
+                assert 0 <= v < (1 << w), (blk.name, cfg, i, o)
+                P |= v << off; off += w
+        cases = '(unpack (Z.to_nat %d) %s %s %d 0x%x)' % (len(ins_list), zlist(iw), zlist(ow), W, P)
         fs = blk.spec(cfg)
         fm = blk.model(cfg) if with_model else fs
         items.append(('g%d' % g, 'chk 0 %s %s %s 3' % (fs, fm, cases)))
@@ -103,7 +115,7 @@ def sweep(ctx, with_model, full_bits, n_random, only=None, tag='C08'):
         t0 = time.time()
         res = coq_compare('%s_b%d' % (tag, batch_no[0]), groups, with_model)
         batch_no[0] += 1
-        for (blk, cfg, ins_list, outs, full), bad in zip(groups, res):
+        for (blk, cfg, ins_list, outs, ow), bad in zip(groups, res):
             for (k, so, mo) in bad:
                 rec = {'block': blk.name, 'config': cfg, 'inputs': ins_list[k], 'impl': outs[k]}
                 if so != outs[k]: spec_bad.append(dict(rec, spec=so))
@@ -115,18 +127,20 @@ def sweep(ctx, with_model, full_bits, n_random, only=None, tag='C08'):
         if only and blk.name not in only: continue
         for cfg in blk.configs:
             widths = blk.in_widths(cfg)
-            ins_list, full = inputs_for(widths, rng, full_bits, n_random)
+            fb = full_bits + (1 if (blk.name in ('And', 'Or', 'Xor', 'Nor') and not ctx.quick) else 0)     # arity 5 x width 3 in full
+            ins_list, full = inputs_for(widths, rng, fb, n_random)
             try:
                 outs = run_impl(py4hw, blk, cfg, ins_list)
             except Exception as ex:      # a legal configuration must build and simulate
                 spec_bad.append({'block': blk.name, 'config': cfg, 'inputs': None, 'impl': 'raised %s: %s' % (type(ex).__name__, ex), 'spec': 'a value'})
                 continue
+            ow = run_impl.out_widths
             ctx.count((blk.name, json.dumps(cfg, sort_keys=True), 'full' if full else 'sampled'), n=len(ins_list))
             if blk.name in ('Mux', 'Comparator', 'PriorityEncoder') and len(ctx.cov['samples']) < 6 and sum(widths) > 3:
                 k = len(ins_list) // 3
                 ctx.sample({'block': blk.name, 'config': cfg, 'inputs': ins_list[k], 'impl_outputs': outs[k]})
-            groups.append((blk, cfg, ins_list, outs, full)); ncases += len(ins_list)
-            if ncases >= 20000: flush()
+            groups.append((blk, cfg, ins_list, outs, ow)); ncases += len(ins_list)
+            if ncases >= 40000: flush()
     flush()
     return spec_bad, model_bad
 
@@ -181,7 +195,7 @@ def run(ctx):
         sb = common.build(['Spec/C08.vo'], timeout=600)
         if not sb['ok']:
             ctx.violation({'what': 'Spec/C08.v does not build', 'coq_error': sb['msg']}, found_input=False); return
-    full_bits, n_random = (10, 120) if ctx.quick else (15, 1500)
+    full_bits, n_random = (10, 120) if ctx.quick else (14, 1000)
     spec_bad, model_bad = sweep(ctx, with_model, full_bits, n_random)
     known_checks(ctx)
     tie_ok = (not missing) and r['ok'] and with_model and not model_bad
@@ -197,7 +211,7 @@ def run(ctx):
     if not reported and not tie_ok:
         if not ctx.quick or True:
             # widen the search before giving up: larger exhaustive tables, more random inputs (impl vs spec only)
-            sb2, _ = sweep(ctx, False, 13 if ctx.quick else 16, 600 if ctx.quick else 4000, tag='C08w')
+            sb2, _ = sweep(ctx, False, 12 if ctx.quick else 14, 400 if ctx.quick else 1500, tag='C08w')
             for rec in sb2:
                 if is_known(ctx, rec): continue
                 ctx.violation({'what': 'the real %s disagrees with its truth table (Spec/C08.v)' % rec['block'], 'block': rec['block'], 'config': rec['config'],
